@@ -80,6 +80,7 @@ class Model:
         self.unresolved: List[CallSite] = []
         self.precondition_lost: List[Tuple[str, ast.AST, str]] = []
         self.local_imports: Dict[str, Dict[str, Binding]] = {}
+        self._locals_cache: Dict[str, Set[str]] = {}
         self._build()
 
     # -- construction -------------------------------------------------------------------
@@ -279,6 +280,14 @@ class Model:
     def local_names(self, fi: FuncInfo) -> Set[str]:
         if fi.is_module_body:
             return set()
+        cached = self._locals_cache.get(fi.qual)
+        if cached is not None:
+            return cached
+        names = self._local_names(fi)
+        self._locals_cache[fi.qual] = names
+        return names
+
+    def _local_names(self, fi: FuncInfo) -> Set[str]:
         names = set(fi.params)
         for n in ast.walk(fi.node):
             if isinstance(n, ast.Name) and isinstance(n.ctx, ast.Store):
